@@ -58,7 +58,7 @@ def gen_cases(tier):
         a, b, meta = G.gen_pair(rnd)
         cases.append({'id': len(cases), 'kind': 'pair', 'tag': f'C02pair{i}', 'chain': [a, b], 'verify_from': 1,
                       'detail': True, 'meta': meta, 'full': tier == 'thorough' and i % 5 == 0,
-                      'session': i % 4 == 0})
+                      'session': i % 5 == 0})
     for k in range(n_sweeps):
         for j, (a, b, meta) in enumerate(G.gen_sweep(lib.rng(f'C02sweep{k}'))):
             cases.append({'id': len(cases), 'kind': 'sweep', 'tag': f'C02sweep{k}/{j}', 'chain': [a, b], 'verify_from': 1,
